@@ -1,6 +1,7 @@
-//! pvc-ckks: check C16 and the CKKS part of the cross-cutting property C12.
+//! pvc-ckks: check C16 and the CKKS parts of the cross-cutting properties C10 and C12.
 //! usage: pvc-ckks <Cxx> --tier quick|thorough [--replay f] [--only family]
 
+pub mod c10ckks;
 pub mod c12ckks;
 pub mod c16;
 pub mod ctx;
@@ -37,6 +38,7 @@ fn main() {
     }
     let code = match args.property.as_str() {
         "C16" => check!("model_checking", c16::run, c16::replay),
+        "C10" => part!("exploration", c10ckks::run, c10ckks::replay),
         "C12" => part!("exploration", c12ckks::run, c12ckks::replay),
         o => {
             eprintln!("pvc-ckks: unknown property {o}");
